@@ -35,6 +35,7 @@ type mgFunc struct {
 	lits    *[]mgLit
 	nlit    *int
 	iotas   map[string]int64
+	roots   map[string]bool // receiver and parameters: their fields are variables of the program (`c.inflight`)
 }
 
 type mgLit struct {
@@ -164,6 +165,28 @@ func (m *mgFunc) path(e ast.Expr) string {
 	return ""
 }
 
+// localRoot: is the selector chain rooted in a local variable of the function (as opposed to the receiver, a
+// parameter or a package)?
+func (m *mgFunc) localRoot(e ast.Expr) bool {
+	for {
+		switch x := e.(type) {
+		case *ast.SelectorExpr:
+			e = x.X
+		case *ast.ParenExpr:
+			e = x.X
+		case *ast.StarExpr:
+			e = x.X
+		case *ast.Ident:
+			if _, ok := m.lookup(x.Name); !ok {
+				return false
+			}
+			return !m.roots[x.Name]
+		default:
+			return false
+		}
+	}
+}
+
 // droppedCall: log calls, hooks, mutex and stats operations leave no trace in the program.
 func droppedCall(name string) bool {
 	if strings.HasPrefix(name, "log.") || name == "vhook" || strings.HasPrefix(name, "stats.Record") {
@@ -273,9 +296,12 @@ func (m *mgFunc) unsupported(what string) string {
 func (m *mgFunc) funcLit(fl *ast.FuncLit) string {
 	*m.nlit++
 	name := fmt.Sprintf("%s_lit%d", leanName(m.key), *m.nlit)
-	sub := &mgFunc{p: m.p, key: m.key, consts: m.consts, iotas: m.iotas, scope: m.scope, used: m.used, types: m.types, recvTy: m.recvTy, lits: m.lits, nlit: m.nlit}
+	sub := &mgFunc{p: m.p, key: m.key, consts: m.consts, iotas: m.iotas, roots: m.roots, scope: m.scope, used: m.used, types: m.types, recvTy: m.recvTy, lits: m.lits, nlit: m.nlit}
 	sub.push()
 	params := sub.declareFields(fl.Type.Params, false)
+	for _, pn := range params {
+		m.roots[pn] = true
+	}
 	if fl.Type.Results != nil {
 		sub.results = sub.declareFields(fl.Type.Results, true)
 	}
@@ -367,9 +393,10 @@ func (m *mgFunc) expr(e ast.Expr) string {
 	case *ast.ParenExpr:
 		return m.expr(x.X)
 	case *ast.SelectorExpr:
-		if pth := m.path(x); pth != "" {
+		if pth := m.path(x); pth != "" && !m.localRoot(x) {
 			return "(.var " + q(pth) + ")"
 		}
+		// a field of a local value (a range variable, the result of a look-up): a projection, not a variable
 		return "(.field " + m.expr(x.X) + " " + q(x.Sel.Name) + ")"
 	case *ast.StarExpr:
 		return m.expr(x.X)
@@ -683,7 +710,7 @@ func (m *mgFunc) stmt(s ast.Stmt) string {
 			}
 		}
 		if m.isMap(x.X) {
-			e = "(.call \"rangemap\" " + chain([]string{e}) + ")"
+			return "(.rangeM " + q(k) + " " + q(v) + " " + e + " " + m.block(x.Body.List) + ")"
 		}
 		return "(.range " + q(k) + " " + q(v) + " " + e + " " + m.block(x.Body.List) + ")"
 	case *ast.ForStmt:
@@ -813,6 +840,42 @@ func (m *mgFunc) stmt(s ast.Stmt) string {
 	case *ast.LabeledStmt:
 		return "(.seq (.exprS " + m.unsupported("label "+x.Label.Name) + ") " + m.stmt(x.Stmt) + ")"
 	case *ast.SelectStmt:
+		// the non-blocking forms `select { case ch <- v: A  default: B }` and `select { case x := <-ch: A  default: B }`
+		// are an `if` on an extern that tries the communication; every other select is outside the subset
+		if len(x.Body.List) == 2 {
+			var comm, def *ast.CommClause
+			for _, c := range x.Body.List {
+				cc := c.(*ast.CommClause)
+				if cc.Comm == nil {
+					def = cc
+				} else {
+					comm = cc
+				}
+			}
+			if comm != nil && def != nil {
+				m.push()
+				defer m.pop()
+				switch cs := comm.Comm.(type) {
+				case *ast.SendStmt:
+					cond := "(.call \"trysend\" " + chain([]string{m.expr(cs.Chan), m.expr(cs.Value)}) + ")"
+					return "(.ifs .skip " + cond + " " + m.block(comm.Body) + " " + m.block(def.Body) + ")"
+				case *ast.ExprStmt:
+					if u, ok := cs.X.(*ast.UnaryExpr); ok && u.Op == token.ARROW {
+						init := "(.assign [\"_\", \"$ok\"] (.call \"tryrecv\" " + chain([]string{m.expr(u.X)}) + "))"
+						return "(.ifs " + init + " (.var \"$ok\") " + m.block(comm.Body) + " " + m.block(def.Body) + ")"
+					}
+				case *ast.AssignStmt:
+					if len(cs.Rhs) == 1 && len(cs.Lhs) >= 1 {
+						if u, ok := cs.Rhs[0].(*ast.UnaryExpr); ok && u.Op == token.ARROW {
+							if n, ok := m.lhsName(cs.Lhs[0], cs.Tok == token.DEFINE); ok {
+								init := "(.assign [" + q(n) + ", \"$ok\"] (.call \"tryrecv\" " + chain([]string{m.expr(u.X)}) + "))"
+								return "(.ifs " + init + " (.var \"$ok\") " + m.block(comm.Body) + " " + m.block(def.Body) + ")"
+							}
+						}
+					}
+				}
+			}
+		}
 		return "(.exprS " + m.unsupported("select") + ")"
 	}
 	return "(.exprS " + m.unsupported(fmt.Sprintf("stmt %T", s)) + ")"
@@ -843,7 +906,7 @@ func translatePkg(p *pkgInfo, prefix string, consts map[string]ast.Expr, w *stri
 		}
 		var lits []mgLit
 		nlit := 0
-		m := &mgFunc{p: p, key: prefix + key, consts: consts, iotas: iotas, used: map[string]int{}, types: map[string]ast.Expr{}, lits: &lits, nlit: &nlit}
+		m := &mgFunc{p: p, key: prefix + key, consts: consts, iotas: iotas, used: map[string]int{}, types: map[string]ast.Expr{}, lits: &lits, nlit: &nlit, roots: map[string]bool{}}
 		m.push()
 		var params []string
 		if fd.Recv != nil {
@@ -853,6 +916,9 @@ func translatePkg(p *pkgInfo, prefix string, consts map[string]ast.Expr, w *stri
 			}
 		}
 		params = append(params, m.declareFields(fd.Type.Params, false)...)
+		for _, pn := range params {
+			m.roots[pn] = true
+		}
 		if fd.Type.Results != nil {
 			m.results = m.declareFields(fd.Type.Results, true)
 		}
